@@ -8,7 +8,7 @@ BUDGET = {"quick": 240, "thorough": 2400}
 BOUNDS = {"quick": "URL.build(...) with one text component free at a time, 1 code point (user, password: ASCII; path, query key, query value, "
                    "fragment: all of Unicode without lone surrogates; fragment also 2 code points) x hosts {reg-name; IDN, IPv4, IPv6 for user, path, "
                    "query value}; path and fragment free together",
-          "thorough": "<= 3 code points per free component; three components free together"}
+          "thorough": "<= 2 code points per free component (reg-name and IPv6 hosts; 1 on IDN and IPv4); five pairs of components free together"}
 ASSUMPTIONS = ["user/password holes are ASCII: a non-ASCII character in the authority goes through the NFKC screen (unicodedata, C code), which is "
                "not symbolically executed - cut and counted",
                "hosts are concrete (IDNA is not symbolically executed)", "lone surrogates are excluded (they cannot be supplied as decoded values)",
@@ -88,10 +88,12 @@ def families(tier):
     comps = ("user", "password", "path", "qkey", "qval", "fragment")
     for host in HOSTS:
         for comp in comps:
-            for n in ((1, 2) if q else (1, 2, 3)):
+            for n in (1, 2):
                 if q and host != "reg" and (n == 2 or comp not in ("user", "path", "qval")):
                     continue
                 if q and n == 2 and comp != "fragment":
+                    continue
+                if not q and n == 2 and host in ("idn", "v4"):
                     continue
                 fams.append(Family("%s/%s/n=%d" % (host, comp, n), h_roundtrip, dict(host=host, free={comp: n})))
     for comp in ("qkey", "qval", "fragment", "path", "password", "user"):
@@ -103,6 +105,5 @@ def families(tier):
     pairs = [("user", "password"), ("path", "fragment"), ("qkey", "qval"), ("path", "qkey"), ("password", "path")]
     for a, b in (pairs[1:2] if q else pairs):
         fams.append(Family("reg/%s+%s" % (a, b), h_roundtrip, dict(host="reg", free={a: 1, b: 1})))
-    if not q:
-        fams.append(Family("reg/path+qval+fragment", h_roundtrip, dict(host="reg", free={"path": 1, "qval": 1, "fragment": 1})))
+
     return fams
